@@ -16,15 +16,15 @@ Transcription notes (what the C++ does, not what it should do):
 * multiplication of exactly four limbs uses the unrolled `eval_multiply_n_by_n_to_lo_part`
   (`mulUnary` = the `eval_mul_unary` overload for fewer than 129 limbs).
 * `≥ 129` limbs (`number_of_limbs_karatsuba_threshold`) select the other `eval_mul_unary` overload:
-  `eval_multiply_kara_n_by_n_to_2n`, **transcribed** as `kara` — same recursion (`nh = n / 2`), same cutoff
-  (`n ≤ 48` → `eval_multiply_n_by_n_to_2n`), same carry/borrow propagation, and the same *memory*: the routine
-  works in place on the result array `r` (2n limbs) and the scratch array `t` (4n limbs), which
-  `eval_mul_unary` declares **without initialising them**.  `kara` therefore takes and returns the contents of
-  both arrays, and `opMulWith` takes their initial contents as an argument (`opMul` = zero-filled).  When the
-  limb count is halved down to an *odd* count above the cutoff (`karaOddSplit`), `nh = (n-1)/2` drops the top
-  limb of both operands and never writes `r[n-1]`, `r[2n-1]`, which are then *read*: the product is wrong and
-  depends on the initial contents (kernel-checked in `CnlProperties/C10.lean`).  `opMul` dispatches on the
-  limb count exactly as the C++ overload set does.
+  `eval_multiply_kara_n_by_n_to_2n`, **transcribed** as `kara` — same recursion (`nh = n / 2`), same leaf rule
+  (`n ≤ 48` or, since the repair 38967ec, `n` odd → `eval_multiply_n_by_n_to_2n`), same carry/borrow propagation,
+  and the same *memory*: the routine works in place on the result array `r` (2n limbs) and the scratch array `t`
+  (4n limbs), which `eval_mul_unary` declares without initialising them.  `kara` therefore takes and returns the
+  contents of both arrays, and `opMulWith` takes their initial contents as an argument (`opMul` = zero-filled).
+  `karaOrig`/`opMulWithOrig` are the routine **before** the repair: when the limb count was halved down to an *odd*
+  count above the cutoff (`karaOddSplit`), `nh = (n-1)/2` dropped the top limb of both operands and never wrote
+  `r[n-1]`, `r[2n-1]`, which were then *read*: the product was wrong and depended on the initial contents
+  (kernel-checked in `CnlProperties/C10.lean`).  `opMul` dispatches on the limb count as the overload set does.
 * Knuth division (`divKnuth`) is Algorithm D with the multiplicative normalisation
   `d = 2^w / (v₁ + 1)`, including the `q̂` decrement loop (fuel `2^w + 1`; `none` = loop did not end)
   and the add-back step; `KStats` reports how often each fired.
@@ -528,33 +528,49 @@ def karaSplit (w : Nat) (rec : Nat → Limbs → Limbs → Limbs → Limbs → L
     (splice r (n + nh) (karaBorrow w (slice r (n + nh) nh) s.2), t)
   else (r, t)
 
-/-- `eval_multiply_kara_n_by_n_to_2n(r, a, b, n, t)`.  `a`, `b`: the `n` limbs at the operand pointers;
+/-- `eval_multiply_kara_n_by_n_to_2n(r, a, b, n, t)` as repaired in 38967ec: schoolbook at or below the cutoff
+**and for odd limb counts**, so only even counts are ever split.  `a`, `b`: the `n` limbs at the operand pointers;
 `r`: the `2n` limbs at the result pointer (contents on entry); `t`: the scratch storage from pointer `t`
 to its end.  Returns the contents of `r` and `t` on exit.  The first argument is recursion fuel (`≥ log₂ n`). -/
 def kara (w : Nat) : Nat → Nat → Limbs → Limbs → Limbs → Limbs → Limbs × Limbs
   | 0, _, _, _, r, t => (r, t)
   | fuel+1, n, a, b, r, t =>
-    if n ≤ karaCutoff then (splice r 0 (mul2n w (a.take n) (b.take n)), t)
+    if n ≤ karaCutoff ∨ n % 2 ≠ 0 then (splice r 0 (mul2n w (a.take n) (b.take n)), t)
     else
       let nh := n / 2
       karaSplit w (kara w fuel) n (slice a 0 nh) (slice a nh nh) (slice b 0 nh) (slice b nh nh) r t
 
+/-- the routine **before** 38967ec: every count above the cutoff is split with `nh = n / 2`, odd ones too (then
+the top limb of each operand is dropped and `r[n-1]`, `r[2n-1]` are read without having been written) -/
+def karaOrig (w : Nat) : Nat → Nat → Limbs → Limbs → Limbs → Limbs → Limbs × Limbs
+  | 0, _, _, _, r, t => (r, t)
+  | fuel+1, n, a, b, r, t =>
+    if n ≤ karaCutoff then (splice r 0 (mul2n w (a.take n) (b.take n)), t)
+    else
+      let nh := n / 2
+      karaSplit w (karaOrig w fuel) n (slice a 0 nh) (slice a nh nh) (slice b 0 nh) (slice b nh nh) r t
+
 /-- the Karatsuba overload of `eval_mul_unary`: `init` = the contents the two local arrays `result`
-(2n limbs) and `t` (4n limbs) happen to have (the code does not initialise them); the low `n` limbs
-of `result` are copied back -/
+(2n limbs) and `t` (4n limbs) happen to have (the code does not initialise them — harmless for the repaired
+routine, which writes every limb before reading it); the low `n` limbs of `result` are copied back -/
 def mulKaratsuba (w : Nat) (init : Limbs × Limbs) (a b : Limbs) : Limbs :=
   let n := a.length
   (kara w n n a b (fitTo (2 * n) init.1) (fitTo (4 * n) init.2)).1.take n
+
+/-- the same over the unrepaired routine -/
+def mulKaratsubaOrig (w : Nat) (init : Limbs × Limbs) (a b : Limbs) : Limbs :=
+  let n := a.length
+  (karaOrig w n n a b (fitTo (2 * n) init.1) (fitTo (4 * n) init.2)).1.take n
 
 def karaOddSplitAux : Nat → Nat → Bool
   | 0, _ => false
   | fuel+1, n => decide (n > karaCutoff) && (n % 2 == 1 || karaOddSplitAux fuel (n / 2))
 
-/-- halving the limb count reaches an odd count above the schoolbook cutoff: that level splits into two
-halves of `(n-1)/2` limbs, drops the top limb of each operand and reads two limbs it never wrote -/
+/-- halving the limb count reaches an odd count above the schoolbook cutoff: in the unrepaired routine that level
+split into two halves of `(n-1)/2` limbs, dropped the top limb of each operand and read two limbs it never wrote -/
 def karaOddSplit (n : Nat) : Bool := karaOddSplitAux n n
 
-/-- the instantiations whose `*` is defective: Karatsuba is selected and meets an odd split -/
+/-- the instantiations whose `*` was defective before 38967ec: Karatsuba is selected and met an odd split -/
 def karaDefect (n : Nat) : Bool := decide (n ≥ karaThreshold) && karaOddSplit n
 
 /-! ## the binary operators as `cnl::wide_integer` reaches them (`uintwide_t(u).operator op=(v)`) -/
@@ -567,6 +583,9 @@ def opMulWith (w : Nat) (init : Limbs × Limbs) (a b : Limbs) : Limbs :=
   if a.length ≥ karaThreshold then mulKaratsuba w init a b else mulUnary w a b
 /-- `operator*=` with zero-filled local arrays -/
 def opMul (w : Nat) (a b : Limbs) : Limbs := opMulWith w ([], []) a b
+/-- `operator*=` before the repair 38967ec -/
+def opMulWithOrig (w : Nat) (init : Limbs × Limbs) (a b : Limbs) : Limbs :=
+  if a.length ≥ karaThreshold then mulKaratsubaOrig w init a b else mulUnary w a b
 
 def binOp (f : Fmt) (op : BinOp) (a b : Limbs) : Res Limbs :=
   match op with
